@@ -28,7 +28,7 @@ RULE = ('cases = (pass-through function, table, arguments, target kind); seeded 
         'Non-trivial: the table has >= 2 data rows. Distinct = SHA-1 of the case.')
 ASSUMPTIONS = ['tee targets: MemorySource and plain file paths', 'a tee is compared with to* only after it was iterated to the end']
 FNS = ['teecsv', 'teetsv', 'teepickle', 'teetext', 'teehtml', 'progress', 'log_progress', 'clock', 'cache', 'wrap']
-REQUIRED = ['fn:' + f for f in FNS] + ['tee-bytes-compared', 'ragged-table', 'header-only-table', 'write_header=False', 'file-target', 'memory-target',
+REQUIRED = ['table-without-any-row'] + ['fn:' + f for f in FNS] + ['tee-bytes-compared', 'ragged-table', 'header-only-table', 'write_header=False', 'file-target', 'memory-target',
                                          'cache-limited', 'non-utf8-encoding', 'cache-interleaved-iterators']
 TEXT = ['', 'a', 'b c', 'x,y', 'q"q', "it's", 'é', '€', 'l1\nl2', 'cr\rlf', 'tab\there', '<b>&amp;</b>', ' pad ', '1', '2.5', 'None']
 MIXED = TEXT + [None, 0, 1, -3, 2.5, True, gen.D(2020, 1, 1), (1, 2), b'by']
@@ -44,6 +44,8 @@ def cases(ctx):
         t = gen.table(rng, nrows=n, nfields=nf, pool=pool, ragged=0.35 if rng.random() < 0.4 else 0.0)
         if rng.random() < 0.3:
             t[0] = [rng.choice(['h', 'héader', 'a b', 'x<y']) + str(j) for j in range(nf)]
+        if fn.startswith('tee') and fn != 'teetext' and rng.random() < 0.04:
+            t = []           # a table that yields nothing at all, not even a header: the tee target still equals what to* writes for it
         c = {'fn': fn, 'table': t, 'target': rng.choice(['memory', 'file'])}
         if fn.startswith('tee'):
             # an earlier pass over the same tee view (abandoned after the header or a few rows, or complete) before the judged one:
@@ -103,6 +105,8 @@ def judge(case, ctx):
     table = copy.deepcopy(case['table'])
     rows = [tuple(r) for r in table]
     n = len(rows) - 1
+    if not table:
+        ctx.seen('table-without-any-row')
     if n >= 2:
         ctx.mark_nontrivial()
     if n == 0:
@@ -223,7 +227,7 @@ def judge(case, ctx):
             kw['index_header'] = True
         if case['truncate']:
             kw['truncate'] = case['truncate']
-        if case['td_styles'] == 'dict':
+        if case['td_styles'] == 'dict' and table:
             kw['td_styles'] = {table[0][0]: 'color: blue', table[0][-1]: (lambda v: 'x: %s' % type(v).__name__)}
         elif case['td_styles'] == 'callable':
             kw['td_styles'] = lambda v: 'len: %d' % len(str(v))
